@@ -79,6 +79,8 @@ type Report struct {
 	Wall       float64
 	// ExploreSecs is the wall time of the symbolic-execution phase.
 	ExploreSecs float64
+	// Skipped counts units not explored because the run had failed already.
+	Skipped int
 }
 
 // Config for a run.
@@ -111,6 +113,7 @@ func Check(m *sx.Machine, units []*Unit, cfg Config) *Report {
 	var mu sync.Mutex
 	var allOuts [][]*Outcome = make([][]*Outcome, len(units))
 	var exploreNanos int64
+	var unitErrors int32
 	var uwg sync.WaitGroup
 	usem := make(chan struct{}, cfg.Workers)
 	for ui, u := range units {
@@ -122,6 +125,15 @@ func Check(m *sx.Machine, units []*Unit, cfg Config) *Report {
 			te := time.Now()
 			var results []sx.PathResult
 			var err error
+			if atomic.LoadInt32(&unitErrors) >= 8 {
+				// the run is failing already: do not spend the time budget
+				// of every remaining unit
+				mu.Lock()
+				rep.Units++
+				rep.Skipped++
+				mu.Unlock()
+				return
+			}
 			func() {
 				defer func() {
 					if r := recover(); r != nil {
@@ -143,6 +155,7 @@ func Check(m *sx.Machine, units []*Unit, cfg Config) *Report {
 			rep.Units++
 			rep.Funcs[u.Func] = true
 			if err != nil {
+				atomic.AddInt32(&unitErrors, 1)
 				rep.Errors = append(rep.Errors, fmt.Sprintf("%s %s: %v", u.Func, u.Instance, err))
 				mu.Unlock()
 				return
